@@ -117,15 +117,17 @@ def endCell (src : Bytes) (offs : List Nat) (maxrow : Nat) (s : KS) (endLine : B
     let hdr' := if endLine then false else s.hdr
     let row' := if endLine then (if s.hdr then 0 else s.row + 1) else s.row
     let col' := if endLine then 0 else s.col + 1
-    match getE offs col' "column_offsets[col_index]", getE offs (col' + 1) "column_offsets[col_index+1]" with
-    | .error e, _ => .error e
-    | _, .error e => .error e
-    | .ok o, .ok o1 =>
-      match get2 inds col' (if hdr' then maxrow else row') "column_inds[col_index,row_index]" with
+    match getE offs col' "column_offsets[col_index]" with
+    | .error e => .error e
+    | .ok o =>
+      match getE offs (col' + 1) "column_offsets[col_index+1]" with
       | .error e => .error e
-      | .ok cs =>
-        let j := skipAfter src s.index
-        .ok { s with inds := inds, hdr := hdr', row := row', col := col', colOff := o, colCnt := o1 - o, indsFull := s.indsFull || (endLine && row' == maxrow), cstart := cs, count := 0, index := j, ics := j + 1 }
+      | .ok o1 =>
+        match get2 inds col' (if hdr' then maxrow else row') "column_inds[col_index,row_index]" with
+        | .error e => .error e
+        | .ok cs =>
+          let j := skipAfter src s.index
+          .ok { s with inds := inds, hdr := hdr', row := row', col := col', colOff := o, colCnt := o1 - o, indsFull := s.indsFull || (endLine && row' == maxrow), cstart := cs, count := 0, index := j, ics := j + 1 }
 
 /-- one iteration of the `while True:` loop -/
 def step (src : Bytes) (offs : List Nat) (maxrow : Nat) (s : KS) : Except Err KS :=
